@@ -17,6 +17,7 @@ open InvProxy
 inductive Op where
   | setHeader (k v : Bytes)        -- w.Header().Set(k, v) with canonical k
   | addHeader (k v : Bytes)
+  | delHeader (k : Bytes)          -- w.Header().Del(k) with canonical k
   | writeHeader (code : Int)
   | write (bs : Bytes)
   deriving DecidableEq, Repr
@@ -24,10 +25,14 @@ inductive Op where
 /-- what reaches the wrapped writer -/
 inductive Ev where
   | head (code : Int) (hdr : Hdr)  -- WriteHeader(code) with the header map as it is then
+  | interim (code : Int) (hdr : Hdr) -- WriteHeader(1xx other than 101): passed on, the final header is still to come
   | body (bs : Bytes)
   deriving DecidableEq, Repr
 
-/-- a plain recording ResponseWriter: first WriteHeader wins, Write implies 200 -/
+/-- an interim (1xx other than 101) status, as the response writers test it -/
+def isInterim (c : Int) : Bool := decide (c ≥ 100) && decide (c ≤ 199) && c != 101
+
+/-- a plain recording ResponseWriter: interim responses pass, the first final WriteHeader wins, Write implies 200 -/
 structure Plain where
   hdr : Hdr
   wrote : Bool
@@ -37,7 +42,11 @@ structure Plain where
 def Plain.step (s : Plain) : Op → Plain
   | .setHeader k v => { s with hdr := Hdr.set s.hdr k v }
   | .addHeader k v => { s with hdr := Hdr.add s.hdr k v }
-  | .writeHeader c => if s.wrote then s else { s with wrote := true, out := s.out ++ [.head c s.hdr] }
+  | .delHeader k => { s with hdr := Hdr.del s.hdr k }
+  | .writeHeader c =>
+    if s.wrote then s
+    else if isInterim c then { s with out := s.out ++ [.interim c s.hdr] }
+    else { s with wrote := true, out := s.out ++ [.head c s.hdr] }
   | .write bs =>
     let s := if s.wrote then s else { s with wrote := true, out := s.out ++ [.head 200 s.hdr] }
     { s with out := s.out ++ [.body bs] }
@@ -73,6 +82,7 @@ structure BW where
 
 def BW.writeHeader (cfg : Cfg) (s : BW) (code : Int) : BW :=
   if s.wroteHeader then s else
+  if isInterim code then { s with out := s.out ++ [.interim code s.hdr] } else
   let s := { s with wroteHeader := true }
   if !Gen.banner_isFrameableHTMLResponse code s.hdr then
     { s with writeBytes := true, out := s.out ++ [.head code s.hdr] }
@@ -87,6 +97,7 @@ def BW.writeHeader (cfg : Cfg) (s : BW) (code : Int) : BW :=
 def BW.step (cfg : Cfg) (s : BW) : Op → BW
   | .setHeader k v => { s with hdr := Hdr.set s.hdr k v }
   | .addHeader k v => { s with hdr := Hdr.add s.hdr k v }
+  | .delHeader k => { s with hdr := Hdr.del s.hdr k }
   | .writeHeader c => BW.writeHeader cfg s c
   | .write bs =>
     let s := if s.wroteHeader then s else BW.writeHeader cfg s 200
@@ -99,11 +110,15 @@ def bannered (cfg : Cfg) (r : Req) (h0 : Hdr) (ops : List Op) : List Ev :=
 
 /-- status and header map at the moment the response head is produced -/
 def headOf (h0 : Hdr) (ops : List Op) : Option (Int × Hdr) :=
-  match (plain h0 ops).head? with
-  | some (.head c h) => some (c, h)
-  | _ => none
+  (plain h0 ops).findSome? fun e => match e with | .head c h => some (c, h) | _ => none
 
-def bodyOf (evs : List Ev) : Bytes := evs.flatMap (fun e => match e with | .body b => b | .head _ _ => [])
+/-- the interim responses among the events -/
+def interimsOf (evs : List Ev) : List Ev := evs.filter fun e => match e with | .interim _ _ => true | _ => false
+
+/-- the final status that reaches the wrapped writer -/
+def statusOf (evs : List Ev) : Option Int := evs.findSome? fun e => match e with | .head c _ => some c | _ => none
+
+def bodyOf (evs : List Ev) : Bytes := evs.flatMap (fun e => match e with | .body b => b | _ => [])
 
 /-! ### shim script splice -/
 
